@@ -290,10 +290,56 @@ def run(ctx):
             if counts[ln] != 0:
                 law("on the generated forest %s the law %s is broken: `%s` yields %s (must yield nothing)" % (nm, ln, q, counts[ln]),
                     {"input": nm, "file": pth, "law": ln, "query": q})
+    # ---- the other DWARF / ELF value types: values that are == show the same (location list entries and their
+    # operations down to every operand, attributes, symbols however far apart in the table), exactly one of
+    # <, ==, > holds, == is symmetric
+    from vlib.dwgen import Attr as _Attr, Unit as _Unit, Forest as _Forest, Die as _Die, write_object as _wo
+    from vlib import dwloc as _dwloc
+    lists_ = [[(0x10, 0x20, [("DW_OP_bregx", 5, 8)]), (0x10, 0x20, [("DW_OP_bregx", 5, 16)]), (0x10, 0x20, [("DW_OP_bregx", 6, 8)]),
+               (0x10, 0x20, [("DW_OP_bit_piece", 8, 0)]), (0x10, 0x20, [("DW_OP_bit_piece", 8, 4)]), (0x10, 0x28, [("DW_OP_bregx", 5, 8)]),
+               (0x10, 0x20, [("DW_OP_bregx", 5, 8), ("DW_OP_deref",)]), (0x10, 0x20, [("DW_OP_fbreg", -8)]), (0x10, 0x20, [("DW_OP_fbreg", -16)])],
+              [(0x10, 0x20, [("DW_OP_bregx", 5, 8)]), (0x30, 0x40, [("DW_OP_bit_piece", 8, 4), ("DW_OP_bit_piece", 8, 8)])]]
+    offs_, off_ = [], 0
+    for entries in lists_:
+        offs_.append(off_)
+        for b_, e_, o_ in entries:
+            off_ += 8 + 8 + 2 + len(_dwloc.expr_layout(o_)[1])
+        off_ += 16
+    lroot = _Die("DW_TAG_compile_unit", [_Attr("DW_AT_name", "DW_FORM_string", b"locs"), _Attr("DW_AT_low_pc", "DW_FORM_addr", 0x1000)],
+                 [_Die("DW_TAG_variable", [_Attr("DW_AT_name", "DW_FORM_string", b"l%d" % k), _Attr("DW_AT_location", "DW_FORM_sec_offset", o_)]) for k, o_ in enumerate(offs_)], flag=True)
+    lf = _Forest([_Unit(lroot, 4)])
+    lf.loc = lists_
+    lpath = os.path.join(os.path.dirname(dwin[0][1]), "loc-entries.o")
+    _wo(lf, lpath)
+    many_s = os.path.join(os.path.dirname(dwin[0][1]), "many-syms.s")
+    with open(many_s, "w") as fh:
+        fh.write("\t.data\n" + "".join("m%d:\n\t.byte %d\n" % (i, i % 251) for i in range(66000)))
+    many_o = many_s[:-2] + ".o"
+    _sp.run(["as", "-o", many_o, many_s], check=True)
+    KINDS = [("location list entries", "[entry @AT_location]", [lpath, os.path.join(common.REPO, "tests", "bitcount.o")]),
+             ("location operations", "[entry @AT_location elem]", [lpath, os.path.join(common.REPO, "tests", "bitcount.o")]),
+             ("attributes", "[entry attribute]", [lpath, os.path.join(common.REPO, "tests", "a1.out")]),
+             ("symbols", "[symbol]", [os.path.join(common.REPO, "tests", "a1.out")]),
+             ("symbols far apart in the table", "[symbol ?(pos == 7 || pos == 8 || pos == 65543 || pos == 65544 || pos == 65999)]", [many_o])]
+    VLAWS = [("equal-shows-the-same", "L elem (|A| L elem (|B| ?(A == B) ?(\"%( A %)\" != \"%( B %)\")))"),
+             ("equal-only-itself", "L elem (|A| L elem (|B| ?(A == B) ?(A pos != B pos)))"),
+             ("exactly-one", "L elem (|A| L elem (|B| [?(A < B) 1, ?(A == B) 1, ?(A > B) 1] ?(length != 1)))"),
+             ("symmetric", "L elem (|A| L elem (|B| (?(A == B) !(B == A)), (?(A < B) !(B > A))))")]
+    for kind_, src_, files_ in KINDS:
+        for f_ in files_:
+            # (operations of different entries of one attribute's list are == when they sit at the same offset of their
+            #  expressions: value_loclist_op::cmp looks at attribute and offset only - an equivalence, noted in DESIGN)
+            laws_ = [("%s:%s" % (kind_, ln), "%s (|L| %s)" % (src_, q)) for ln, q in VLAWS if not (kind_ == "location operations" and ln.startswith("equal-"))]
+            counts = dwforest.law_counts(f_, laws_)
+            for ln, q in laws_:
+                evaluations += 1
+                ndw += 1
+                if counts[ln] != 0:
+                    law("on %s the law %s is broken: `%s` yields %s (must yield nothing)" % (os.path.basename(f_), ln, q, counts[ln]),
+                        {"input": os.path.basename(f_), "file": f_, "law": ln, "query": q})
     # ---- value_die::cmp against its model (val/DieCmp.v): all pairs of the DIEs that `entry` (every DIE with
     # the imports it was reached through), `entry child` (only the imports met while listing the children) and
     # `raw entry` (raw: no imports) hand out on generated forests; the routes are known by construction
-    from vlib.dwgen import Die as _Die, write_object as _wo
     def die_lists(forest):
         ent, kid = [], []
         def kids(dd, chain):
